@@ -907,7 +907,8 @@ def oracle_table(pre, table, flags, site, fails):
     st, it, ii = flags
 
     def bad(clause, cls, what):
-        fails.append({'sig': 'C19|%s|%s|%s' % (site, clause, cls), 'what': what})
+        # the index is built by the same DataFrame(index=span) call whatever object is exported: one site for its findings
+        fails.append({'sig': 'C19|%s|%s|%s' % ('to_dataframe' if clause == 'index' and cls != 'row-count' else site, clause, cls), 'what': what})
     if 'raise' in table:
         bad('export', table['raise'], 'export raised %s' % table['raise'])
         return
